@@ -53,6 +53,9 @@ var c14GroupConfig = []mrepo.ConfigEntry{
 	{Key: "refgroup.rel.include", Value: "refs/heads/release"},
 	{Key: "refgroup.rel.old.includeRegexp", Value: `refs/[^/]+/release/0\..*`},
 	{Key: "refgroup.rel.new.include", Value: "refs/heads/release/1.0"},
+	// the subsection (the group's name) is case-sensitive
+	{Key: "refgroup.QA.include", Value: "refs/heads/release/0.9"},
+	{Key: "refgroup.rel.Old2.include", Value: "refs/heads/release/0.9"},
 }
 
 type c14Run struct {
@@ -251,6 +254,16 @@ func c14Worker(sh *explore.Shard) {
 		[]string{"--no-progress", "-v"},
 		func(v string) []string { return []string{"--no-progress", "-v", "--names=" + v} },
 		func(v string) bool { return v == "none" || v == "hash" || v == "full" }, "full", sameStdout)
+	// the same family observed through JSON v1 and v2 (object names are part of both)
+	for _, j := range [][]string{{"--json"}, {"--json", "--json-version=2"}} {
+		j := j
+		family("names"+strings.Join(j, ""), "sizer.names",
+			[][]string{nil, {"none"}, {"hash"}, {"full"}},
+			[]c14Opt{{[]string{"--names=none"}, "none"}, {[]string{"--names=hash"}, "hash"}, {[]string{"--names", "full"}, "full"}},
+			append([]string{"--no-progress"}, j...),
+			func(v string) []string { return append(append([]string{"--no-progress"}, j...), "--names="+v) },
+			func(v string) bool { return v == "none" || v == "hash" || v == "full" }, "full", sameStdout)
+	}
 	// json version family (with --json and with -j)
 	for _, j := range []string{"--json", "-j"} {
 		family("jsonVersion"+j, "sizer.jsonVersion",
@@ -304,7 +317,7 @@ func c14Worker(sh *explore.Shard) {
 		{{"--exclude-regexp", "refs/heads/release/.*"}, {"--exclude", "/refs/heads/release/.*/"}},
 		{{"--include-regexp", "refs/(heads|tags)/release/.*"}, {"--include", "/refs/(heads|tags)/release/.*/"}},
 	}
-	for _, g := range []string{"rel", "rel.old", "rel.new", "tags", "branches", "remotes"} {
+	for _, g := range []string{"rel", "rel.old", "rel.new", "tags", "branches", "remotes", "QA", "rel.Old2"} {
 		pairs = append(pairs, [2][]string{{"--refgroup", g}, {"--include", "@" + g}})
 		pairs = append(pairs, [2][]string{{"--refgroup=" + g, "--exclude", "refs/heads/main"}, {"--include=@" + g, "--exclude", "refs/heads/main"}})
 	}
@@ -356,6 +369,6 @@ func tailBytes(b []byte, n int) string {
 
 func init() {
 	Registry["C14"] = &Check{Level: "exploration", Worker: c14Worker, QuickBudget: 80 * time.Second, ThoroughBudget: 12 * time.Minute,
-		Rule:        "real binary + real git on a materialised repository whose metrics sit in every threshold band; per option family the full product (gitconfig value: absent/valid/invalid/multi-valued, two key spellings) x (every option sequence of length <=2 quick / <=3 thorough over the family's option alphabet; the threshold family always up to length 3 for the absent and 0 configuration); expected = byte-identical stdout and exit status of the canonical run with the effective value spelled out (effective = last option of the family, else config, else default; invalid config with no option = clean error); progress observed on stderr; every single-valued setting also given through GIT_CONFIG_COUNT in the caller's environment instead of a file; 24 documented equivalent-spelling pairs x 5 contexts must give identical stdout, exit status and --show-refs marks. non-trivial = every case (all involve a config/option combination)",
+		Rule:        "real binary + real git on a materialised repository whose metrics sit in every threshold band; per option family the full product (gitconfig value: absent/valid/invalid/multi-valued, two key spellings) x (every option sequence of length <=2 quick / <=3 thorough over the family's option alphabet; the threshold family always up to length 3 for the absent and 0 configuration); expected = byte-identical stdout and exit status of the canonical run with the effective value spelled out (effective = last option of the family, else config, else default; invalid config with no option = clean error); progress observed on stderr; every single-valued setting also given through GIT_CONFIG_COUNT in the caller's environment instead of a file; 28 documented equivalent-spelling pairs x 5 contexts must give identical stdout, exit status and --show-refs marks. non-trivial = every case (all involve a config/option combination)",
 		Assumptions: []string{"git 2.39.5 interprets the configuration file", "the canonical run (all settings spelled out, no sizer.* configuration) defines what a value means; C11/C08 own the content of a report"}}
 }
